@@ -26,7 +26,9 @@ import traceback
 import numpy as np
 
 COPY_FALSE_OK = {'threshold_absolute', 'threshold_proportional', 'weight_conversion', 'binarize',
-                 'normalize', 'invert', 'autofix', 'logtransform'}
+                 'normalize', 'invert', 'autofix', 'logtransform',
+                 # documented "copy=False: add edges directly to the input matrix"
+                 'generative_model'}
 
 
 class CaseTimeout(BaseException):
